@@ -745,6 +745,39 @@ func genC16(r *rand.Rand, t *Trace, thorough bool) {
 		}
 	}
 	forceMetric = -1
+	// code sizes from eight bits up (all of them "one byte per code" wide or wider): a stream written with one
+	// is refused by a receiver built with another. Untrained indexes, so no training set of 2^nbits is needed.
+	for _, ck := range []int{2, 3} {
+		for _, nb := range []int{8, 9, 12, 16} {
+			var s recvSpec
+			s.ck = ck
+			p, _ := rndParams(r, ck, false)
+			p.dim = 4
+			p.m = 2
+			p.nbits = nb
+			s.vp = p
+			idx, err := p.build()
+			if err != nil {
+				continue
+			}
+			var buf bytes.Buffer
+			if _, err := idx.WriteTo(&buf); err != nil {
+				continue
+			}
+			for _, nb2 := range []int{8, 9, 12, 16, 7} {
+				if nb2 == nb {
+					continue
+				}
+				s2 := s
+				s2.vp.nbits = nb2
+				if _, err := s2.vp.build(); err != nil {
+					continue
+				}
+				emitRead(t, s2, buf.Bytes(), 1, 0, "mismatch.param.nbits_wide")
+			}
+			emitRead(t, s, append(buf.Bytes(), 0xDE, 0xAD), 0, 2, "read.valid.nbits_wide")
+		}
+	}
 	// one-parameter mismatches for the vector kinds and sub-index presence for hybrid
 	for _, b := range built {
 		s := b.spec
